@@ -1250,6 +1250,7 @@ static void record_parse(const char *ev, int fl, int depth, const int *cuts, int
 	drop(&o);
 	json_tokener_free(t);
 }
+static void nest_doc(int levels, int mix, int leaf);
 static int valid_drive(int start, int nexec)
 {
 	const char *seed = getenv("VERIF_SEED");
@@ -1262,6 +1263,9 @@ static int valid_drive(int start, int nexec)
 		int deep = vh_below(8) == 0;
 		if (x % 6 == 5)
 			gen_long_token(1); /* one token longer than the scratch buffer's first sizes */
+		else if (x % 6 == 2 && vh_below(2))
+			/* valid texts nested right up to the default limit: arrays, objects or a mix around a leaf or an empty container */
+			nest_doc(28 + (int)vh_below(5), (int)vh_below(3), (int)vh_below(4));
 		else
 			gen_doc(deep ? 20 + (int)vh_below(11) : 2 + (int)vh_below(5), deep ? 60 : 4 + (int)vh_below(40));
 		record_parse("parse", 0, 32, NULL, 0);
